@@ -230,8 +230,24 @@ func (w *c38World) apply(code byte, n int) bool {
 		w.curDead = true
 		c := w.cur
 		w.mu.Unlock()
-		w.ops = append(w.ops, []byte{'X'})
+		if n%2 == 1 {
+			// … and the client's Close of this connection (the worker's reaction to the reader's failure) will be slow
+			// to start: until 'R' the old writer is still running and picks up new calls
+			c.holdCloseBefore()
+			w.ops = append(w.ops, []byte{'X', 1})
+		} else {
+			w.ops = append(w.ops, []byte{'X'})
+		}
 		c.srvClose()
+	case 'R':
+		w.mu.Lock()
+		c := w.cur
+		w.mu.Unlock()
+		if c == nil || !c.closeBlocked() {
+			return false
+		}
+		w.ops = append(w.ops, []byte{'R'})
+		c.releaseClose()
 	case 'D', 'F':
 		w.mu.Lock()
 		g := w.dialGate
@@ -390,6 +406,9 @@ func (w *c38World) allDone() bool {
 
 func (w *c38World) teardown() {
 	for round := 0; round < 400; round++ {
+		if w.apply('R', 0) {
+			continue
+		}
 		if w.apply('G', 0) {
 			continue
 		}
@@ -438,6 +457,12 @@ func (w *c38World) teardown() {
 	// let the idle worker retire (MaxIdleConnDuration), answering a dial it may be blocked in
 	for i := 0; i < 4; i++ {
 		advance(1001 * time.Second)
+		w.mu.Lock()
+		if c := w.cur; c != nil && c.closeBlocked() {
+			c.releaseClose() // a held Close reached only now (idle exit of the writer)
+		}
+		w.mu.Unlock()
+		settle()
 		w.mu.Lock()
 		g := w.dialGate
 		w.mu.Unlock()
@@ -763,12 +788,12 @@ func c38Storm(a [][]byte) *Case {
 		}}
 }
 
-var c38Codes = []byte("NNNLLLLLBBGGPPPPPXDDDFTTTT")
+var c38Codes = []byte("NNNLLLLLBBGGPPPPPXXRRDDDFTTTT")
 
 func init() {
 	Register(&Prop{
 		ID: "C38",
-		Rule: "pipe: random sequences of 4..30 gated ops (Do / DoTimeout 5s|15s|40s / DoTimeout with a request body stream held back by the harness and released later, so that deadlines expire while the request is being written / server answers the oldest request / server closes / dial ok / dial fail / virtual time jumps to the next timer: a deadline, the reader's ReadTimeout (7s in a third of the cases), the end of the worker's pause) " +
+		Rule: "pipe: random sequences of 4..30 gated ops (Do / DoTimeout 5s|15s|40s / DoTimeout with a request body stream held back by the harness and released later, so that deadlines expire while the request is being written / server answers the oldest request / server closes / server closes while the client's Close of the connection is slow to start (the old writer keeps running and takes new calls until the Close is let go) / dial ok / dial fail / virtual time jumps to the next timer: a deadline, the reader's ReadTimeout (7s in a third of the cases), the end of the worker's pause) " +
 			"on a real PipelineClient, MaxConns 1, MaxPendingRequests 1..3, followed by a teardown that answers everything; " +
 			"storm: 3..7 concurrent callers (Do, DoTimeout, DoDeadline) against autonomous servers that answer at once, slowly, in two pieces, stall, close, and dials that are refused, MaxConns 1..2; " +
 			"non-trivial = chW was full or a call overflowed / more than 4 calls; distinct = distinct input",
